@@ -72,7 +72,7 @@ func init() {
 		Rule:   "cases = generated hands in which every bet/raise decision draws its amount from all classes (negative, zero, below/at the wager, undersized, minimum, above minimum, at/above the stack, +-2^62); classes:request:* is the histogram; non-trivial = hand with at least one sized request",
 		Stages: []stage{two(3000, 100000), hand(60000, 2000000)}}
 	plans["C13"] = plan{Level: "exploration", Assume: handAssume,
-		Rule:   "cases = forced-bet configurations driven Start..PayBlinds: exhaustive grid (n<=4, ante<=2, SB<=2, BB 1..3, dealer blind 0/2, bankrolls 1..5, all buttons, live/dead SB) + rapid G-CFG; non-trivial = a stack within 1 chip of a forced amount it owes",
+		Rule:   "cases = forced-bet configurations driven Start..PayBlinds: exhaustive grid (n<=4, ante<=2, SB<=2, BB 1..3, dealer blind 0/2, bankrolls 1..5, all buttons, live/dead SB; plus the button-blind / ante-only layouts SB = BB = 0, dealer blind 0..3) + rapid G-CFG (one configuration in twenty a button-blind / ante-only game); non-trivial = a stack within 1 chip of a forced amount it owes",
 		Stages: []stage{{Name: "grid", Harness: "hand", Test: "TestForcedGrid", Mode: "enum", Shards: 1}, {Name: "forced", Harness: "hand", Test: "TestForcedRapid", Mode: "rapid", Quick: 60000, Thorough: 3000000}, hand(6000, 150000)}}
 	plans["C14"] = plan{Level: "exploration", Assume: handAssume,
 		Rule:   "cases = generated hands (all endings), card accounting checked after every operation; ShuffleCards on drawn sub-decks; pairs of hands alive at the same time with decks taken from the engine's constructors and interleaved operations; non-trivial = hand that reached the flop; shuffle input of >= 2 cards; pair of hands with >= 4 switches between them",
